@@ -83,6 +83,7 @@ inline Bytes Fill(uint32_t style, uint32_t n, uint32_t salt) {
 inline void AddField(Message & m, const Field & f) {
    switch(f.type) {
       case 'i': for (uint32_t i=0; i<f.n; i++) (void) m.AddInt32(f.name.c_str(), (int32)(f.style * 1000 + i)); break;
+      case 'y': for (uint32_t i=0; i<f.n; i++) (void) m.AddInt8(f.name.c_str(), (int8)(f.style + i)); break;
       case 's': {Bytes t = Fill(3, f.n, f.style); (void) m.AddString(f.name.c_str(), String(t.c_str()));} break;
       case 'b': {Bytes t = Fill(f.style, f.n, f.n + 1); (void) m.AddData(f.name.c_str(), B_RAW_TYPE, t.data(), (uint32) t.size());} break;
       case 'm': {MessageRef sub = GetMessageFromPool(7 + f.style); (void) sub()->AddInt64("q", 1234567 + f.style); (void) sub()->AddString("z", "sub"); (void) m.AddMessage(f.name.c_str(), sub);} break;
@@ -271,7 +272,7 @@ struct Link {
    Pipe fwd, back; Script ws, rs;     // ws: what Write() calls of the sender get; rs: what Read() calls of the receiver get
    std::string name; Family fam; Gran gran; bool exact; uint32_t slack; uint32_t maxChunk; bool simple, big;
    bool predictable;   // the bytes a Message puts on the wire do not depend on WHEN it is taken out of the queue (false: the sender's encoding changes on the way)
-   Link() : fam(FAM_BIN), gran(G_MSG), exact(false), slack(0), maxChunk(0), simple(false), big(true), predictable(true) {}
+   Link() : fam(FAM_BIN), gran(G_MSG), exact(false), slack(0), maxChunk(0), simple(false), big(true), predictable(true), retryQueue(false) {}
    virtual ~Link() {}
    virtual bool Prepare(uint32_t /*seed*/) {return true;}                     // e.g. a handshake under a seeded random segmentation
    virtual bool Queue(const MsgSpec & s) = 0;                                  // AddOutgoingMessage on the sender
@@ -282,7 +283,12 @@ struct Link {
    virtual void PumpReverse() {}
    virtual bool CanQueueNow() {return true;}
    virtual bool Acceptable(const MsgSpec & /*s*/) {return true;}               // false: this Message falls under the predicate of an open known finding on this connection
+   bool retryQueue;                                                            // Queue() may fail for lack of room in a fixed output buffer: try again after some output
+   virtual void SizeCases(std::vector<struct SizeCase> & /*out*/, bool /*big*/) {}   // the size sweep of this configuration, derived from the thresholds in its gateways' sources
 };
+// a list of Messages whose sizes sit at an internal threshold of the gateways; rejectAt >= 0: Message number rejectAt is over a DOCUMENTED limit of the receiver:
+// the Messages before it must arrive, it must not be handed over (what else happens - error, torn stream - is not judged)
+struct SizeCase {std::string what; std::vector<MsgSpec> msgs; int rejectAt; SizeCase() : rejectAt(-1) {}};
 typedef Link * (*LinkFactory)(const std::string & cfg);
 
 // ---------------------------------------------------------------------------------------------- report
@@ -548,12 +554,13 @@ inline void RandomRun(LinkFactory mk, const std::string & cfg, uint32_t seed, ui
       if ((!allQueued)&&(what < 22)&&(L.CanQueueNow())) {
          MsgSpec s = fixed ? (*fixed)[queued] : RandomMessage(L.fam, r, L.simple, L.big && (style == 0 || style == 3)); Finalize(s);
          if ((!fixed)&&(!L.Acceptable(s))) {C.skippedKnown++; continue;}
-         if (!L.Queue(s)) {o.violations.push_back("AddOutgoingMessage failed"); break;}
+         if (!L.Queue(s)) {if (L.retryQueue) {idle++; goto pump;} o.violations.push_back("AddOutgoingMessage failed"); break;}
          mon.OnSent(s); queued++; C.messages++;
          if (bl) {sendLineIdx.push_back(blines.size()); blines.push_back("");}
          continue;
       }
-      const bool out = (what < 61);
+      pump:
+      const bool out = (what < 61)||((L.retryQueue)&&(what < 22));
       uint32_t M = MUSCLE_NO_LIMIT;
       if (style == 2) M = 1; else if ((style != 3)&&(r.R(3) == 0)) M = Pick(r, kMaxMenu, sizeof(kMaxMenu) / sizeof(kMaxMenu[0]));
       std::vector<uint64_t> caps; const uint32_t nc = (style == 3) ? 0 : (1 + r.R(4));
@@ -612,6 +619,65 @@ inline void RandomRun(LinkFactory mk, const std::string & cfg, uint32_t seed, ui
    delete Lp;
 }
 
+// ---------------------------------------------------------------------------------------------- size sweeps
+// a binary Message whose FlattenedSize() is exactly n (n = 12: what code only; 27 .. 33: one int8 field, the name makes the size; from 34: a padded raw field)
+inline MsgSpec SizedBin(uint32_t n, bool rnd) {
+   MsgSpec s; s.fam = FAM_BIN; s.what = 1300; char t[32]; snprintf(t, sizeof(t), "size%u%s", n, rnd ? "rnd" : "cmp"); s.tag = t;
+   if (n <= 12) return s;
+   if (n < 34) {s.fields.push_back(F('y', std::string((n > 27) ? (n - 26) : 1, 'n').c_str(), 1, 5)); return s;}
+   s.padTo = (int32_t) n; Finalize(s); return s;
+}
+inline MsgSpec SizedText(const std::vector<uint32_t> & lens) {MsgSpec s; s.fam = FAM_TEXT; s.tag = "lines"; for (size_t i=0; i<lens.size(); i++) {char t[16]; snprintf(t, sizeof(t), ".%u", lens[i]); s.tag += t; s.lines.push_back(Fill(3, lens[i], lens[i] + (uint32_t) i));} return s;}
+inline MsgSpec SizedRaw(const std::vector<uint32_t> & lens, uint32_t style) {MsgSpec s; s.fam = FAM_RAW; s.tag = "chunks"; for (size_t i=0; i<lens.size(); i++) {char t[16]; snprintf(t, sizeof(t), ".%u", lens[i]); s.tag += t; s.chunks.push_back(Fill(style, lens[i], lens[i] + (uint32_t) i));} return s;}
+inline SizeCase Case1(const std::string & what, const MsgSpec & m, const MsgSpec * then = NULL) {SizeCase c; c.what = what; c.msgs.push_back(m); if (then) c.msgs.push_back(*then); return c;}
+// how many bytes a Message puts on the wire of a fresh connection of this configuration
+inline uint64_t WireBytes(LinkFactory mk, const std::string & cfg, const MsgSpec & m) {
+   Link * L = mk(cfg); Monitor dm(L->gran, L->slack, L->maxChunk, NULL); Outcome junk;
+   (void) L->Prepare(1); const uint64_t base = L->fwd.put; (void) L->Queue(m); (void) Drain(*L, dm, junk);
+   const uint64_t r = L->fwd.put - base; delete L; return r;
+}
+// binary family: every Message size whose WIRE body (after compression / templating, without the 8-byte header) lies in [lo, hi]
+inline void BinBodySweep(LinkFactory mk, const std::string & cfg, uint32_t lo, uint32_t hi, uint32_t header, const char * why, std::vector<SizeCase> & out) {
+   const MsgSpec small = MenuMessage(FAM_BIN, 0, 1, true, false);
+   std::set<uint64_t> seen;
+   for (uint32_t n = (lo > 80) ? (lo - 80) : 12; n <= hi + 2; n++) {
+      if ((n > 12)&&(n < 27)) continue;
+      const MsgSpec m = SizedBin(n, true);
+      const uint64_t w = WireBytes(mk, cfg, m);
+      if ((w < header + lo)||(w > header + hi)||(seen.count(w))) continue;
+      seen.insert(w);
+      out.push_back(Case1(Fmt("%s: Message of %u bytes = %llu body bytes on the wire", why, n, (unsigned long long)(w - header)), m, &small));
+   }
+}
+// reject cases: the Messages before rejectAt arrive, Message rejectAt is not handed over
+inline void RejectRun(LinkFactory mk, const std::string & cfg, const SizeCase & sc, int style, uint32_t seed, Counters & C) {
+   Rng r(seed * 7919 + 5); Outcome o;
+   Watch(Fmt("size limit cfg=%s %s style=%d", cfg.c_str(), sc.what.c_str(), style));
+   Link * Lp = mk(cfg); Link & L = *Lp; Monitor mon(L.gran, L.slack, L.maxChunk, NULL);
+   if (!L.Prepare(seed)) o.violations.push_back("the connection could not be set up");
+   for (size_t i=0; (i<sc.msgs.size())&&(o.violations.empty()); i++) {MsgSpec m = sc.msgs[i]; Finalize(m); if (!L.Queue(m)) {o.violations.push_back("AddOutgoingMessage failed"); break;} mon.OnSent(m); C.messages++;}
+   bool rxErr = false; int idle = 0;
+   for (int round=0; (round<400000)&&(idle<60)&&(o.violations.empty())&&(!rxErr); round++) {
+      std::vector<uint64_t> caps; for (uint32_t k=0; k<1+r.R(3); k++) caps.push_back((style == 1) ? r.R(2) : Pick(r, kCapMenu, sizeof(kCapMenu) / sizeof(kCapMenu[0])));
+      const uint64_t p0 = L.fwd.put + L.fwd.got;
+      if (style == 3) L.ws.Free(); else L.ws.Arm(caps, false);
+      if (L.DoOutput(MUSCLE_NO_LIMIT) < 0) {o.violations.push_back("DoOutput() reported an error"); break;}
+      if (style == 3) L.rs.Free(); else L.rs.Arm(caps, false);
+      std::vector<Bytes> items; const int64_t ret = L.DoInput(MUSCLE_NO_LIMIT, items);
+      for (size_t k=0; k<items.size(); k++) {
+         if ((int) mon.nd >= sc.rejectAt) {o.violations.push_back(Fmt("Message %d (%s) is over the receiver's documented size limit but was handed over", sc.rejectAt + 1, sc.msgs[sc.rejectAt].tag.c_str())); break;}
+         (void) mon.OnDelivered(items[k], o); C.itemsDelivered++;
+      }
+      if (ret < 0) rxErr = true;
+      idle = (L.fwd.put + L.fwd.got != p0) ? 0 : (idle + 1);
+      L.ws.Free(); L.rs.Free();
+   }
+   if ((o.violations.empty())&&((int) mon.nd != sc.rejectAt)) o.violations.push_back(Fmt("%u of the %d Messages within the receiver's size limit were handed over (Message %d is over it)", (unsigned) mon.nd, sc.rejectAt, sc.rejectAt + 1));
+   C.runs++; C.bytesMoved += L.fwd.got;
+   if (!o.violations.empty()) {mj::Value v = mj::Value::Obj(); v.set("config", mj::Value::Str(cfg)).set("size_case", mj::Value::Str(sc.what)).set("style", mj::Value::Int(style)).set("seed", mj::Value::Int(seed)); g_rep.Case(v, o);}
+   delete Lp;
+}
+
 inline mj::Value CountersJson(const Counters & C) {
    mj::Value v = mj::Value::Obj();
    v.set("replays", mj::Value::Int(C.replays)).set("followed", mj::Value::Int(C.followed)).set("drifted", mj::Value::Int(C.drifted)).set("steps", mj::Value::Int(C.steps))
@@ -664,6 +730,35 @@ inline int CommonMain(int argc, char ** argv, LinkFactory mk) {
       if (absLog) fclose(absLog);
       if (binLog) fclose(binLog);
       mj::Value s = CountersJson(T); s.set("summary", mj::Value::Bool(true)).set("mode", mj::Value::Str("explore")).set("per_config", per).set("stopped_early", mj::Value::Bool(g_rep.Stop()));
+      g_rep.Line(s); fclose(g_rep.f);
+      return 0;
+   }
+   // sizes <report> <seed> <big 0|1> <cfg>... : Message / line / chunk SIZES across the internal thresholds of the gateways of each configuration
+   // (Link::SizeCases), each in one piece, under two random segmentations and (small ones) one byte at a time
+   if ((mode == "sizes")&&(argc >= 6)) {
+      InitHarness(argv[2]);
+      const uint32_t seed = (uint32_t) atoll(argv[3]); const bool big = atoi(argv[4]) != 0;
+      mj::Value per = mj::Value::Obj(); Counters T; uint64_t ncases = 0, nreject = 0;
+      for (int i=5; (i<argc)&&(!g_rep.Stop()); i++) {
+         Counters C; Link * probe = mk(argv[i]); if (probe == NULL) {fprintf(stderr, "unknown configuration %s\n", argv[i]); return 3;}
+         std::vector<SizeCase> cases; probe->SizeCases(cases, big); delete probe;
+         for (size_t c=0; (c<cases.size())&&(!g_rep.Stop()); c++) {
+            ncases++;
+            uint64_t bytes = 0; for (size_t k=0; k<cases[c].msgs.size(); k++) {const MsgSpec & m = cases[c].msgs[k]; if (m.fam == FAM_BIN) bytes += Flat(*Build(m)()).size(); for (size_t j=0; j<m.lines.size(); j++) bytes += m.lines[j].size(); for (size_t j=0; j<m.chunks.size(); j++) bytes += m.chunks[j].size();}
+            static const int styles[4] = {3, 0, 0, 1};
+            for (int st=0; (st<4)&&(!g_rep.Stop()); st++) {
+               if ((styles[st] == 1)&&(bytes > 9000)) continue;
+               const size_t before = g_rep.badCases;
+               if (cases[c].rejectAt >= 0) {nreject++; RejectRun(mk, argv[i], cases[c], styles[st], seed * 50 + st, C);}
+               else RandomRun(mk, argv[i], seed * 50 + st + (uint32_t) c * 4, 0, styles[st], C, NULL, NULL, &cases[c].msgs);
+               if (g_rep.badCases != before) {mj::Value v = mj::Value::Obj(); v.set("config", mj::Value::Str(argv[i])).set("size_case_of_the_line_above", mj::Value::Str(cases[c].what)); g_rep.Line(v); break;}
+            }
+         }
+         mj::Value cj = CountersJson(C); cj.set("size_cases", mj::Value::Int((int64_t) cases.size())); per.set(argv[i], cj);
+         T.runs += C.runs; T.messages += C.messages; T.ioCalls += C.ioCalls; T.zeroResults += C.zeroResults; T.oneByteResults += C.oneByteResults; T.itemsDelivered += C.itemsDelivered; T.bytesMoved += C.bytesMoved;
+      }
+      ArmTimer(0);
+      mj::Value s = CountersJson(T); s.set("summary", mj::Value::Bool(true)).set("mode", mj::Value::Str("sizes")).set("size_cases", mj::Value::Int((int64_t) ncases)).set("limit_runs", mj::Value::Int((int64_t) nreject)).set("per_config", per).set("stopped_early", mj::Value::Bool(g_rep.Stop()));
       g_rep.Line(s); fclose(g_rep.f);
       return 0;
    }
